@@ -22,9 +22,10 @@ type Case struct {
 	Key     string `json:"key"`
 	Usage   uint32 `json:"usage"`
 	Data    string `json:"data"`
-	Variant string `json:"variant"` // value correct prefix extend bitflip otherdata otherkey otherusage typemap
-	A       int    `json:"a"`       // prefix length | appended byte | bit index | other usage | type id
-	Other   string `json:"other"`   // other data | other key
+	Variant string `json:"variant"`        // value correct prefix extend bitflip otherdata otherkey otherusage typemap
+	A       int    `json:"a"`              // prefix length | appended byte | bit index | other usage | type id
+	Other   string `json:"other"`          // other data | other key
+	Then    int32  `json:"then,omitempty"` // afterwards compute the same (key octets, usage, data) under this sibling checksum type of equal key length
 }
 
 func usageClass(u uint32) string {
@@ -43,6 +44,28 @@ var iana = map[int32]int32{12: 16, 15: 17, 16: 18, 19: 19, 20: 20, -138: 23}
 func Eval(c Case) evid.Verdict { v, _ := eval(c); return v }
 
 func eval(c Case) (evid.Verdict, bool) {
+	v, triv := eval1(c)
+	if v.OK && c.Then != 0 {
+		// no hidden state: the same key octets and usage under another checksum type of equal key length must
+		// still give that type's RFC value (and then the first type's again)
+		c2 := c
+		c2.Ck, c2.Then, c2.Variant = c.Then, 0, "correct"
+		if v2, _ := eval1(c2); !v2.OK {
+			v2.Sig = "after-sibling-type:" + v2.Sig
+			v2.Msg = fmt.Sprintf("after computing checksum type %d with the same key octets and usage: %s", c.Ck, v2.Msg)
+			return v2, false
+		}
+		c3 := c
+		c3.Then, c3.Variant = 0, "correct"
+		if v3, _ := eval1(c3); !v3.OK {
+			v3.Sig = "after-sibling-type:" + v3.Sig
+			return v3, false
+		}
+	}
+	return v, triv
+}
+
+func eval1(c Case) (evid.Verdict, bool) {
 	trivial := false
 	v := evid.SafeEval(func() evid.Verdict {
 		if c.Variant == "typemap" {
@@ -159,8 +182,11 @@ func TestProp(t *testing.T) {
 			r.Count("", "trivial-skipped")
 			return
 		}
-		r.Count(fmt.Sprintf("%d|%d|%d|%s|%d|%s", c.Ck, len(c.Data)/2, c.Usage, c.Variant, c.A, c.Other),
-			fmt.Sprintf("cksum%d", c.Ck), "variant:"+c.Variant, usageClass(c.Usage))
+		lab := []string{fmt.Sprintf("cksum%d", c.Ck), "variant:" + c.Variant, usageClass(c.Usage)}
+		if c.Then != 0 {
+			lab = append(lab, "then-sibling-type-with-same-key")
+		}
+		r.Count(fmt.Sprintf("%d|%d|%d|%s|%d|%s|%d", c.Ck, len(c.Data)/2, c.Usage, c.Variant, c.A, c.Other, c.Then), lab...)
 		r.Sample(fmt.Sprintf("%s/cksum%d", c.Variant, c.Ck), c)
 		if rt != nil {
 			if r.Judge(check, c, v) {
@@ -192,6 +218,17 @@ func TestProp(t *testing.T) {
 			c.Other = hex.EncodeToString(kgen.Key(t, et, "otherkey"))
 		case "otherusage":
 			c.A = int(kgen.Usage(t))
+		}
+		if c.Variant == "value" || c.Variant == "correct" {
+			var sib []int32
+			for _, o := range ref.CksumTypes {
+				if o != ck && ref.KeyLen(ref.ETypeForCksum(o)) == ref.KeyLen(et) {
+					sib = append(sib, o)
+				}
+			}
+			if len(sib) > 0 && rapid.Bool().Draw(t, "withsibling") {
+				c.Then = rapid.SampledFrom(sib).Draw(t, "sibling")
+			}
 		}
 		judge("cksum", c, t)
 	})
@@ -233,6 +270,13 @@ func TestProp(t *testing.T) {
 		judge("enum", c, nil)
 		c.Variant = "correct"
 		judge("enum", c, nil)
+		for _, o := range ref.CksumTypes {
+			if o != j.ck && ref.KeyLen(ref.ETypeForCksum(o)) == ref.KeyLen(et) {
+				c = base
+				c.Variant, c.Then = "correct", o
+				judge("enum", c, nil)
+			}
+		}
 		for l := 0; l < cl; l++ {
 			c = base
 			c.Variant, c.A = "prefix", l
